@@ -43,6 +43,10 @@ pub trait Backend: Send + Sync {
     fn remove_file(&self, _path: &Path) -> io::Result<()> {
         Err(io::Error::new(io::ErrorKind::Unsupported, "remove_file"))
     }
+    /// `ftruncate(2)`.
+    fn set_len(&self, _fd: u64, _len: u64) -> io::Result<()> {
+        Err(io::Error::new(io::ErrorKind::Unsupported, "set_len"))
+    }
     /// `stat(2)`: `(is_dir, len)` of an existing path.
     fn stat(&self, _path: &Path) -> io::Result<(bool, u64)> {
         Err(io::Error::new(io::ErrorKind::Unsupported, "stat"))
@@ -124,6 +128,28 @@ impl File {
             Inner::Real(f) => f.sync_all(),
             Inner::Sim(b, fd) => b.fsync(*fd),
         }
+    }
+
+    pub fn sync_data(&self) -> io::Result<()> {
+        match &self.0 {
+            Inner::Real(f) => f.sync_data(),
+            Inner::Sim(b, fd) => b.fsync(*fd),
+        }
+    }
+
+    pub fn set_len(&self, len: u64) -> io::Result<()> {
+        match &self.0 {
+            Inner::Real(f) => f.set_len(len),
+            Inner::Sim(b, fd) => b.set_len(*fd, len),
+        }
+    }
+
+    pub fn open<P: AsRef<Path>>(path: P) -> io::Result<File> {
+        OpenOptions::new().read(true).open(path)
+    }
+
+    pub fn options() -> OpenOptions {
+        OpenOptions::new()
     }
 }
 
